@@ -32,9 +32,11 @@ def run_case(case):
     has_q = 'Q' in r['layout']
     shift = 0.3 if cfg['kernel'] != 'wsin' else 0.2        # keep the second kernel regular at the first point
 
+    cfac = (1.0 + 0.5j) if seed % 2 else 1.0          # g analytic but not real on the real axis for half of the cases
+
     def f(z):
         with np.errstate(all='ignore'):
-            out = g(z) * s(z - P)
+            out = g(z) * s(z - P) * cfac
             if has_q:
                 out = out * KERN['sinc']((z - Q) * shift)
             return out
@@ -86,9 +88,9 @@ def run_case(case):
         for p in r['layout']:
             zp = pts[p]
             if p == 'P':
-                want.append(gP * (KERN['sinc']((P - Q) * shift) if has_q else 1.0))
+                want.append(cfac * gP * (KERN['sinc']((P - Q) * shift) if has_q else 1.0))
             elif p == 'Q':
-                want.append(g(Q) * s(Q - P) * 1.0)          # the second factor -> 1 at Q
+                want.append(cfac * g(Q) * s(Q - P) * 1.0)          # the second factor -> 1 at Q
             else:
                 want.append(f(np.asarray(zp)))
             kinds.append(p)
@@ -106,15 +108,17 @@ def run_case(case):
 def run_residue(case):
     vlib.use_repo()
     from numdifftools.limits import Residue
-    pi, z0, p, method, order, path = case
+    pi, z0, p, method, order, path, ratio, cfac = case
     pr = PROGS[pi]
     g = exprs.make_fun(pr['prog'], 1.0, z0)
     gz = exprs.jet_floats(pr['jet'])[0]
 
     def f(z):
         with np.errstate(all='ignore'):
-            return g(z) / (z - z0) ** p
+            return cfac * g(z) / (z - z0) ** p
     kw = dict(pole_order=p, method=method, full_output=True, path=path)
+    if ratio:
+        kw['step_ratio'] = ratio
     if order:
         kw['order'] = order
     try:
@@ -125,7 +129,7 @@ def run_residue(case):
             plain = Residue(f, **dict(kw, full_output=False))(z0)
     except Exception as ex:
         return dict(error='%s: %s' % (type(ex).__name__, str(ex)[:160]))
-    return dict(val=complex(val), est=float(np.max(info.error_estimate)), want=gz, order=int(R.order), arr=[complex(a) for a in np.ravel(arr)], plain=complex(plain))
+    return dict(val=complex(val), est=float(np.max(info.error_estimate)), want=cfac * gz, order=int(R.order), arr=[complex(a) for a in np.ravel(arr)], plain=complex(plain))
 
 
 def run(tier, rep):
@@ -210,18 +214,18 @@ def run(tier, rep):
     # Residue
     rcases = []
     for pi in range(len(PROGS)):
-        for z0 in (0.0, 1.5, -2.0, 0.5 + 0.5j, 2.5, 0.7, math.pi):       # dyadic and non-dyadic: z0 + h is rounded for the latter
+        for z0 in (0.0, 1.5, -2.0, 0.5 + 0.5j, 2.5, 0.7, math.pi, 2.4, -1.8, 1.05):       # dyadic and non-dyadic: z0 + h is rounded for the latter
             for p in (1, 2, 3):
                 for method in ('above', 'below'):
                     for order in (0, p + 1, p + 3):
                         for path in ('radial', 'spiral'):
                             if tier == 'quick' and rnd.random() > 0.2:
                                 continue
-                            rcases.append((pi, z0, p, method, order, path))
+                            rcases.append((pi, z0, p, method, order, path, rnd.choice([0, 0, 2.0, 3.0]), rnd.choice([1.0, 1.0 + 0.5j])))
     routs = vlib.pool_map(run_residue, rcases, chunksize=4)
     KR, FR = ENV['limit']['K_residue'], ENV['limit']['floor_residue']
-    for (pi, z0, p, method, order, path), o in zip(rcases, routs):
-        name = 'Residue g=%s z0=%r pole_order=%d %s/%s order=%s' % ('.'.join(PROGS[pi]['prog']), z0, p, method, path, order or 'default')
+    for (pi, z0, p, method, order, path, ratio, cfac), o in zip(rcases, routs):
+        name = 'Residue g=%s%s z0=%r pole_order=%d %s/%s order=%s ratio=%s' % ('(1+0.5j)*' if cfac != 1.0 else '', '.'.join(PROGS[pi]['prog']), z0, p, method, path, order or 'default', ratio or 'default')
         if 'error' in o:
             rep.violation('raises:residue', dict(case=name), '%s raised %s' % (name, o['error']))
             continue
